@@ -143,6 +143,9 @@ pub enum Alter {
     Trunc(usize),
     TruncBy(usize),
     Extend(usize, u8),
+    /// the uncompressed P-256 point (0x04 || X || Y) at this byte offset replaced by its negative (X, p - Y): another
+    /// public key with the same ECDH output
+    NegateY(usize),
 }
 
 #[derive(Clone, PartialEq, Eq, Hash, Debug, Serialize, Deserialize)]
@@ -645,6 +648,24 @@ impl Exec {
                         b.truncate(l);
                     },
                     Alter::Extend(n, f) => b.extend(std::iter::repeat(*f).take(*n)),
+                    Alter::NegateY(off) => {
+                        if b.len() >= off + 65 && b[*off] == 4 {
+                            // p = 2^256 - 2^224 + 2^192 + 2^96 - 1
+                            const P: [u8; 32] = [0xff, 0xff, 0xff, 0xff, 0, 0, 0, 1, 0, 0, 0, 0, 0, 0, 0, 0, 0, 0, 0, 0, 0xff, 0xff, 0xff, 0xff, 0xff, 0xff, 0xff, 0xff, 0xff, 0xff, 0xff, 0xff];
+                            let y = &mut b[off + 33..off + 65];
+                            let mut borrow = 0i16;
+                            for i in (0..32).rev() {
+                                let d = i16::from(P[i]) - i16::from(y[i]) - borrow;
+                                if d < 0 {
+                                    y[i] = (d + 256) as u8;
+                                    borrow = 1;
+                                } else {
+                                    y[i] = d as u8;
+                                    borrow = 0;
+                                }
+                            }
+                        }
+                    },
                 }
                 let prov = if b == orig { prov } else { None };
                 (b, prov)
